@@ -172,10 +172,12 @@ func (l *SignedLog) HeadText(size int, extra string) string {
 // Head returns the tree head of the given size signed by who ("real", "attacker", "both"),
 // with optional extra text lines (forward-compatible extension of the tree note).
 func (l *SignedLog) Head(size int, who, extra string) []byte {
+	tag := extra
 	if extra == "" {
 		extra = l.DefaultExtra
+		tag = "<default>"
 	}
-	key := fmt.Sprintf("%d|%s|%s", size, who, extra)
+	key := fmt.Sprintf("%d|%s|%s", size, who, tag)
 	l.mu.Lock()
 	if b, ok := l.heads[key]; ok {
 		l.mu.Unlock()
